@@ -65,3 +65,10 @@ Definition intro_bounds (cls meth : string) : list ver :=
 Fixpoint dedup (l : list string) : list string :=
   match l with [] => [] | x :: r => if str_in x r then dedup r else x :: dedup r end.
 Definition guarded_classes : list string := dedup (map fg_class field_guards).
+
+(* a request of version v that carries the item t inside a structure of class cls, as the decoder treats it: consumed when
+   the read method reaches the tag under v; otherwise it is in the way of the sequential walk and the message is refused
+   by the final is_oversized check - unless the class's read never makes that check (tolerant_readers, regenerated), in
+   which case the item and everything behind it is left unread and the request goes on to the engine *)
+Definition wire_processed (cls : string) (v : ver) (t : string) : bool :=
+  negb (class_refused cls v) && (tag_allowed cls v t || str_in cls tolerant_readers).
